@@ -302,6 +302,19 @@ pub fn run(ctx: &Ctx) -> i32 {
             let mut g_tab: HashMap<(usize, u64, u64), u64> = HashMap::new();
             let base_out = r.sampler.sample(base, &r.ed, &st_meta);
             let base_bits = outcome_bits(&base_out);
+            if is14 && base.len() == gr.dim {
+                // "reads exactly get_dimension() coordinates": with one coordinate fewer the call cannot succeed
+                let short = &base[..gr.dim - 1];
+                acc.inc("short_slice_runs");
+                if let Outcome::Ok(_) = r.sampler.sample(short, &r.ed, &st_meta) {
+                    acc.violate(
+                        vkey("C14", "a slice of get_dimension()-1 coordinates cannot be sampled", &case, base),
+                        "reads exactly get_dimension() coordinates",
+                        format!("sample returned Ok for a slice of {} coordinates although get_dimension() = {}", gr.dim - 1, gr.dim),
+                        point_case(&case, &r.kin, short, &st_meta, json!({"prop":"C14", "short_slice": true})),
+                    );
+                }
+            }
             let mut influenced = vec![false; gr.dim];
             for (pi, (x, ndev)) in pts.iter().enumerate() {
                 acc.inc("executions");
@@ -962,6 +975,17 @@ pub fn replay_point(ctx: &Ctx, v: &Value) -> i32 {
     let mut acc = Acc::new();
     if v["extra"]["dd_sampler"].as_bool().unwrap_or(false) {
         check_dd_sample(&ctx.prop, &case, &r, &x, &mut acc);
+    }
+    if v["extra"]["short_slice"].as_bool().unwrap_or(false) {
+        let out = r.sampler.sample(&x, &r.ed, &st);
+        eprintln!("replay C14 (short slice of {} coordinates, get_dimension() = {}): {:?}", x.len(), groups(&case).dim, out);
+        return if let Outcome::Ok(_) = out {
+            eprintln!("  reproduced: a slice of get_dimension()-1 coordinates was sampled");
+            1
+        } else {
+            eprintln!("  no violation reproduced");
+            0
+        };
     }
     let xs = if x.len() > groups(&case).dim { x[..groups(&case).dim].to_vec() } else { x.clone() };
     dataflow_point(&case, &r, &xs, &st, ctx.prop == "C14", ctx.prop == "C19", &mut HashMap::new(), None, &mut acc);
